@@ -1,25 +1,26 @@
 #!/usr/bin/env python3
-"""Applies a patch to /repo, runs every property's quick check (no evidence), undoes the patch.
+"""Applies a patch to /repo (or the worktree named by TRY_REPO), runs every property's quick check (no evidence), undoes the patch.
 usage: try_patch.py <patch.diff>...   prints, per patch, the properties that report a violation."""
 import os, subprocess, sys
 from concurrent.futures import ThreadPoolExecutor
 ENV = dict(os.environ, GOFLAGS="-mod=mod", GOPROXY="off", GOSUMDB="off", GOTOOLCHAIN="local"); ENV.pop("GOWORK", None)
+REPO = os.environ.get("TRY_REPO", "/repo")  # a scratch worktree of /repo while a thorough run reads /repo itself
 def run(cmd):
     p = subprocess.run(cmd, env=ENV, capture_output=True, text=True)
     return p.returncode, p.stdout + p.stderr
 def check(pid):
-    rc, out = run(["/verif/bin/verifcheck", "-repo", "/repo", "-verif", "/verif", "-prop", pid, "-no-evidence"])
+    rc, out = run(["/verif/bin/verifcheck", "-repo", REPO, "-verif", "/verif", "-prop", pid, "-no-evidence"])
     return pid, rc, [l.strip() for l in out.splitlines() if l.startswith("  ") or l.startswith("RUN-ERROR")]
 for patch in sys.argv[1:]:
-    rc, out = run(["git", "-C", "/repo", "status", "--porcelain"]); assert out.strip() == "", out
-    rc, out = run(["git", "-C", "/repo", "apply", "--whitespace=nowarn", os.path.abspath(patch)])
+    rc, out = run(["git", "-C", REPO, "status", "--porcelain"]); assert out.strip() == "", out
+    rc, out = run(["git", "-C", REPO, "apply", "--whitespace=nowarn", os.path.abspath(patch)])
     if rc != 0:
         print(patch, "DOES NOT APPLY", out[:200]); continue
     try:
         with ThreadPoolExecutor(5) as ex:
             res = list(ex.map(check, ["C%02d" % i for i in range(1, 21)]))
     finally:
-        run(["git", "-C", "/repo", "checkout", "--", "."]); run(["git", "-C", "/repo", "clean", "-fdq"])
+        run(["git", "-C", REPO, "checkout", "--", "."]); run(["git", "-C", REPO, "clean", "-fdq"])
     alarms = [(p, l) for p, rc, l in res if rc != 0]
     print(patch, "->", "silent" if not alarms else "ALARMS " + ",".join(p for p, _ in alarms))
     for p, l in alarms:
